@@ -293,5 +293,49 @@ pub fn dump() -> Vec<(String, String)> {
         Some(res)
     })).ok().flatten());
     put("layout.deProveInput", list(de_pi));
+    // ---- the JSON witness codec as compiled: keys and value shapes of both exports for a marker witness (every field a distinct
+    //      value); a `serde_json::Map` iterates in key order, so the tables are in key order
+    let (ms, mlim, mmid, mx, me) = (11u64, 1000u64, 7u64, 13u64, 17u64);
+    let (mpath, midx) = (vec![21u64, 22, 23], vec![1u8, 0, 1]);
+    let jw = catch_unwind(AssertUnwindSafe(|| rln_witness_from_json(witness_json(ms, mlim, mmid, &mpath, &midx, mx, me)).ok())).ok().flatten();
+    let json_struct: Option<Vec<String>> = jw.as_ref().and_then(|w| catch_unwind(AssertUnwindSafe(|| {
+        let j = rln_witness_to_json(w).ok()?;
+        let frb = |v: u64| fr_to_bytes_le(&fr(v)).into_iter().map(|b| b as u64).collect::<Vec<u64>>();
+        let mut pe: Vec<u64> = (mpath.len() as u64).to_le_bytes().iter().map(|b| *b as u64).collect();
+        for p in &mpath { pe.extend(frb(*p)); }
+        let mut res = Vec::new();
+        for (k, v) in j.as_object()? {
+            let arr: Vec<u64> = v.as_array()?.iter().map(|x| x.as_u64()).collect::<Option<_>>()?;
+            let marker = match k.as_str() { "identity_secret" => Some(ms), "user_message_limit" => Some(mlim), "message_id" => Some(mmid),
+                                            "x" => Some(mx), "external_nullifier" => Some(me), _ => None };
+            let kind = if marker.map(|m| arr == frb(m)).unwrap_or(false) { "ark:Fr" }
+                       else if k == "path_elements" && arr == pe { "ark:Vec<Fr>" }
+                       else if k == "identity_path_index" && arr == midx.iter().map(|b| *b as u64).collect::<Vec<_>>() { "plain:Vec<u8>" }
+                       else { return None; };
+            res.push(format!("{}={}", k, kind));
+        }
+        Some(res)
+    })).ok().flatten());
+    put("layout.jsonStruct", list(json_struct));
+    let json_bigint: Option<Vec<String>> = jw.as_ref().and_then(|w| catch_unwind(AssertUnwindSafe(|| {
+        let j = rln_witness_to_bigint_json(w).ok()?;
+        let mut res = Vec::new();
+        for (k, v) in j.as_object()? {
+            let field = if let Some(sv) = v.as_str() {
+                let m: u64 = sv.parse().ok()?;
+                let f = if m == ms { "identity_secret" } else if m == mlim { "user_message_limit" } else if m == mmid { "message_id" }
+                        else if m == mx { "x" } else if m == me { "external_nullifier" } else { return None; };
+                format!("{}:dec", f)
+            } else {
+                let arr: Vec<u64> = v.as_array()?.iter().map(|x| x.as_str().and_then(|t| t.parse().ok())).collect::<Option<_>>()?;
+                if arr == mpath { "path_elements:declist".to_string() }
+                else if arr == midx.iter().map(|b| *b as u64).collect::<Vec<_>>() { "identity_path_index:declist".to_string() }
+                else { return None; }
+            };
+            res.push(format!("{}={}", k, field));
+        }
+        Some(res)
+    })).ok().flatten());
+    put("layout.jsonBigint", list(json_bigint));
     out
 }
